@@ -65,7 +65,14 @@ type Gen struct {
 	R     *Rand
 	emit  func(string)
 	stats map[string]int
+	mine  func() bool
 }
+
+// Mine reports whether the NEXT emitted case will be executed by this process (right shard,
+// not before -start). A generator may call it to avoid building an expensive payload for a
+// case another shard runs: `if !g.Mine() { g.Emit(""); continue }` (the empty payload of a
+// foreign case is dropped).
+func (g *Gen) Mine() bool { return g.mine() }
 
 // Thorough says whether the thorough tier was requested.
 func (g *Gen) Thorough() bool { return g.Tier == "thorough" }
@@ -173,6 +180,7 @@ func main() {
 		fmt.Fprintf(ow, "#stats\t%s\n", b)
 		ow.Flush()
 	}
+	g.mine = func() bool { return (idx+1)%sn == si && idx+1 >= *start }
 	g.emit = func(payload string) {
 		idx++
 		if idx%sn != si || idx < *start {
